@@ -138,7 +138,26 @@ def _run(sim, case, r):
         for _ in range(3):
             await asyncio.sleep(0)
         return ValidResult.PASS
-    inst = SvsInst(BASE, ME, on_missing, DigestSha256Signer(for_interest=True),
+    # the callback as the application may hand it over: a function, a functools.partial, a callable object, a bound method
+    shape = case.get('callback_shape', 'function')
+    if shape == 'partial':
+        import functools
+        on_missing_cb = functools.partial(lambda _tag, i: on_missing(i), 'tag')
+    elif shape == 'object':
+        class _Listener:
+            __slots__ = ()
+
+            def __call__(self, i):
+                return on_missing(i)
+        on_missing_cb = _Listener()
+    elif shape == 'bound':
+        class _Owner:
+            def missing(self, i):
+                return on_missing(i)
+        on_missing_cb = _Owner().missing
+    else:
+        on_missing_cb = on_missing
+    inst = SvsInst(BASE, ME, on_missing_cb, DigestSha256Signer(for_interest=True),
                    awaiting_validator if case.get('awaiting_validator') else pass_all,
                    sync_interval=30, suppression_interval=0.2, last_used_seq_num=case['start_seq'])
     me_key = node_key('me')
@@ -529,11 +548,26 @@ def _ops():
         if draw(st.booleans()):
             pre = pre + [{'op': 'restart', 'gap': draw(st.booleans())}]      # ... on an instance that was stopped and started again
         return pre + core + draw(st.lists(anyop, max_size=3))
-    return st.one_of(free, free, free, template(), template2(), template3())
+    @st.composite
+    def template4(draw):
+        """Three (or more) vectors heard within ONE suppression period: lagging, covering, lagging - whatever the order, the
+        merge of what was heard covers the local vector, so the period ends silently."""
+        via = draw(st.sampled_from(['receive', 'handler']))
+        everyone = {'op': 'recv', 'entries': [[n, 'rel', 0, None] for n in ('n1', 'n2', 'n3', 'me')], 'via': via, 'flags': []}
+        lag = {'op': 'recv', 'entries': [['me', 'rel', draw(st.sampled_from([-1, -2])), None]], 'via': via, 'flags': []}
+        heard = draw(st.sampled_from([[lag, everyone, lag], [lag, everyone, lag, lag], [everyone, lag, lag], [lag, lag, everyone, lag]]))
+        core = [{'op': 'publish'}, {'op': 'adv', 'how': '1ms'}]
+        for i, v in enumerate(heard):
+            core.append(dict(v))
+            if i + 1 < len(heard) and draw(st.booleans()):
+                core.append({'op': 'adv', 'how': draw(st.sampled_from(['0', '1ms']))})
+        core.append({'op': 'adv', 'how': 'after'})
+        return draw(st.lists(anyop, max_size=2)) + core + draw(st.lists(anyop, max_size=3))
+    return st.one_of(free, free, free, template(), template2(), template3(), template4())
 
 
 def _case():
-    return st.fixed_dictionaries({'start_seq': st.sampled_from([0, 1, 2, 3, 0, 1, -1]), 'awaiting_validator': st.booleans(), 'publish_before_start': st.sampled_from([0, 0, 0, 1, 2]), 'publish_in_callback': st.sampled_from([False, False, True]), 'callback_raises': st.sampled_from([False, False, False, True]), 'jitter': st.lists(st.integers(0, 65535), min_size=1, max_size=4),
+    return st.fixed_dictionaries({'start_seq': st.sampled_from([0, 1, 2, 3, 0, 1, -1]), 'awaiting_validator': st.booleans(), 'publish_before_start': st.sampled_from([0, 0, 0, 1, 2]), 'publish_in_callback': st.sampled_from([False, False, True]), 'callback_raises': st.sampled_from([False, False, False, True]), 'callback_shape': st.sampled_from(['function', 'function', 'partial', 'object', 'bound']), 'jitter': st.lists(st.integers(0, 65535), min_size=1, max_size=4),
                                   'ops': _ops()})
 
 
